@@ -620,8 +620,9 @@ func runCLI(c *harness.Ctx, sc scenario, s, slot int) {
 	// therefore left to C14) decline
 	// a request without having carried it out
 	refusal := http.StatusForbidden
-	if rng.Intn(2) == 0 {
-		refusal = []int{400, 401, 402, 405, 406, 407, 409, 410, 411, 412, 413, 415, 421, 423, 424, 428, 429, 431, 451}[harness.CaseRng(c.Seed^0x4e4, s*64+slot).Intn(19)]
+	if (s+slot)%2 == 1 {
+		// stratified, so that every code is met with every method within a few scenarios
+		refusal = []int{400, 401, 402, 405, 406, 407, 409, 410, 411, 412, 413, 415, 421, 423, 424, 428, 429, 431, 451}[((s+slot)/2+slot/3)%19]
 	}
 	c.Info("scenario=%d op=cli:%s chunks=%d n=%d fault=%s@%d refusal=%d", s, cmdName, len(sc.idx.Chunks), sc.n, method, fk, refusal)
 	c.LogInfo()
